@@ -22,7 +22,7 @@ var srcC03v = []*g2lTarget{
 		zeroFill:  true,
 		intLen:    true,
 		callSubst: map[string]string{
-			"signature.VerifyAuthenticity":                  "c03v.VerifyAuthenticity",
+			"signature.VerifyAuthenticity":                 "c03v.VerifyAuthenticity",
 			"typeIs:*signature.SignatureAuthenticityError": "c03v.isAuthenticityError",
 		},
 	},
